@@ -1374,15 +1374,14 @@ expr0:
                             result_type = t1;
                     }
                     else if (t1 == TYPE_ANY) {
-                        if (t3 == TYPE_FUNCTION) {
+                        if (t3 == TYPE_FUNCTION)
                             yyerror("Bad right argument to '+' (function)");
-                            result_type = TYPE_ANY;
-                        } else result_type = t3;
+                        /* mixed + X may be a string, an array, a number ...: the result type is not known */
+                        result_type = TYPE_ANY;
                     } else if (t3 == TYPE_ANY) {
-                        if (t1 == TYPE_FUNCTION) {
+                        if (t1 == TYPE_FUNCTION)
                             yyerror("Bad left argument to '+' (function)");
-                            result_type = TYPE_ANY;
-                        } else result_type = t1;
+                        result_type = TYPE_ANY;
                     } else {
                         switch(t1) {
                             case TYPE_STRING:
